@@ -214,7 +214,7 @@ STORAGE_PROPS = {
     "C07": dict(main="plans", monitor=mon_storage.c07,
                 rel=st(fields=["payinfo"], ops=["postFile", "deleteFile"], opfields={"buyStorage": ["outcome"], "block": ["files", "files2"]})),
     "C12": dict(main="payments", monitor=mon_storage.C12, stateful=True,
-                rel=st(fields=["gauges"], opfields={"block": ["bank", "panic"]})),
+                rel=st(fields=["gauges"], opfields={"block": ["bank", "panic"], "postFile": ["bank"], "buyStorage": ["bank"]})),
     "C14": dict(main="forms", monitor=mon_storage.c14,
                 rel=st(fields=["attests", "reports"], ops=["attest", "report", "requestAttest", "requestReport"])),
     "C15": dict(main="collateral", monitor=mon_storage.c15,
